@@ -11,7 +11,9 @@
        next takes the mutex; the caller drains these counters at its NEXT io_write_next.  io_parity_write makes the
        caller wait only until the writer has left the slot io_max-1 iterations back, so the report of the stripe
        processed at iteration i is seen at iteration i + d for some 1 <= d <= io_max - 1 (the schedule; parameter
-       `lag`), or never when the loop ends first (io_stop follows the loop: sync.c:1395-1397);
+       `lag`); what is still unreported when the loop ends (normally or by a graceful stop) is collected after io_stop
+       by io_write_flush_errors (repair 1304269 of F-C08-last-writer-errors-lost: ++io_error / ++error once per kind,
+       no limit test, no bail; before the repair these reports were lost); on a bail they stay uncollected;
      - single-thread mode (io.c io_write_preset_mono / io_parity_write_mono / io_write_next_mono, after the repair
        55c30f5 of F-C08-mono-writer-errors-lost): io_write_preset_mono clears io->writer_error[], io_parity_write_mono runs
        the writer synchronously and counts its task state, io_write_next_mono reports the counters: the errors of a
@@ -61,6 +63,10 @@ Definition count_levels (k : wres -> bool) (wl : nat -> wres) (nl : nat) : nat :
 
 (* w_iters = iterations completed (sync.c:1289 `state->need_write = 1` is reached once per completed iteration: when it is 0
    and nothing else asked for a save, the state is NOT written at exit) *)
+(* sync.c `end:` after the repair 1304269: io_stop, then the counters filled since the last io_write_next are drained *)
+Definition flush_counts (q : list wrep) (ne ni : nat) : nat * nat :=
+  ((if (0 <? sum_err q)%nat then S ne else ne), (if (0 <? sum_eio q)%nat then S ni else ni)).
+
 Record wrun := mkWRun { w_run : run_out; w_lost : list wrep; w_nfail : nat; w_iters : nat }.
 
 Definition run_failing (r : run_out) : bool := negb ((ro_nerr r + ro_nsilent r + ro_nio r =? 0)%nat).
@@ -77,12 +83,12 @@ Section SyncW.
            (stripes : list nat) (stop : option nat) (it : nat) (q : list wrep) (nfail : nat)
            (c : content) (par : parity) (ne ns ni : nat) : wrun :=
     match stripes with
-    | [] => mkWRun (mkRun c par ne ns ni false) q nfail it
+    | [] => mkWRun (mkRun c par (fst (flush_counts q ne ni)) ns (snd (flush_counts q ne ni)) false) [] nfail it
     | pos :: rest =>
         let slots := map (fun od => match od with Some d => slot_at d pos | None => SEmpty end) (c_disks c) in
         if negb (stripe_enabled o slots) then sync_loop_w o now fs faults wf m lag rest stop it q nfail c par ne ns ni else
         match stop with
-        | Some O => mkWRun (mkRun c par ne ns ni false) q nfail it
+        | Some O => mkWRun (mkRun c par (fst (flush_counts q ne ni)) ns (snd (flush_counts q ne ni)) false) [] nfail it
         | _ =>
             let r := sync_stripe hashf bs nlev o now ni c (map (fun lv => nth pos lv PNone) par) fs (faults pos) pos in
             let ne1 := (ne + so_nerr r)%nat in let ns1 := (ns + so_nsilent r)%nat in let ni1 := (ni + so_nio r)%nat in
@@ -245,12 +251,13 @@ Section Trace.
         end
     end.
 
-  (* state_sync + snapraid.c: resize, save the post-scan state, the loop, [parity_sync unless bailed], io_stop, final save.
+  (* state_sync + snapraid.c: resize, save the post-scan state, the loop, io_stop, [parity_sync unless bailed], final save
+     (since the repair 1304269 io_stop precedes the final parity_sync: the last queued writes are fsynced too).
      c1 = the state after scan (what is in memory when state_sync starts) *)
   Definition sync_trace (o : sopts) (now : N) (fs : list (option fsdisk)) (faults : nat -> list (option rd))
              (autosave : nat -> bool) (stripes : list nat) (stop : option nat) (c1 : content) (par : parity) : list mev :=
     let '(evs, out) := sync_events o now fs faults autosave stripes stop c1 par 0 0 0 in
-    [MResize (allocated_size c1); MSave c1] ++ evs ++ (if ro_bailed out then [] else [MFsync]) ++ [MDrain; MSave (ro_content out)].
+    [MResize (allocated_size c1); MSave c1] ++ evs ++ [MDrain] ++ (if ro_bailed out then [] else [MFsync]) ++ [MSave (ro_content out)].
 End Trace.
 
 (* ---- the state on disk ---- *)
